@@ -11,6 +11,7 @@ func init() {
 	vfHarnesses["C17_densify"] = vfhC17Densify
 	vfHarnesses["C17_snap_dp0"] = vfhC17SnapDP0
 	vfHarnesses["C17_reverse"] = vfhC17Reverse
+	vfHarnesses["C17_snap_finite_hunt"] = vfhC17SnapFiniteHunt
 	vfHarnesses["C17_densify_repeated"] = vfhC17DensifyRepeated
 }
 
@@ -130,5 +131,20 @@ func vfhC17DensifyRepeated() {
 	out := NewLineString(in).Densify(d).Coordinates()
 	vfAssert(out.Length() == 3, "no vertex is added (d is at least the segment length) and none is lost")
 	vfAssert(vfSameSeqBits(out, in), "every original vertex, in order, with its Z")
+	vfReach("end")
+}
+
+// Hunt (precise float64 multiplication and division): SnapToGrid never turns a
+// finite ordinate into a non-finite one, at the extreme decimal places where
+// the scale factor or the scaled value overflow or underflow.
+func vfhC17SnapFiniteHunt() {
+	x := vfFloat64("x")
+	vfAssume(vfFinite(x))
+	dps := []int{300, 308, 309, 320, -300, -308, -320}
+	dp := dps[vfInt("dp", 0, len(dps)-1)]
+	p := NewPoint(Coordinates{XY: XY{x, 0}, Type: DimXY}).SnapToGrid(dp)
+	c, ok := p.Coordinates()
+	vfAssert(ok, "non-empty")
+	vfAssert(vfFinite(c.X), "SnapToGrid of a finite ordinate is finite")
 	vfReach("end")
 }
